@@ -192,6 +192,9 @@ type Fault struct {
 	Code int32  `json:",omitempty"`
 	Text string `json:",omitempty"`
 	Rand []byte // 16 random bytes for "random"
+	// Raw: kind "other-object": the reply is this serialised object (well-formed, of a registered constructor, but none the
+	// step can be answered with)
+	Raw []byte `json:",omitempty"`
 }
 
 // HSObs is what the server learnt during a key exchange.
@@ -674,6 +677,9 @@ func (c *Conn) plain(f []byte) error {
 		if flt.at("resPQ", "kind") && flt.Kind == "rpc_error" {
 			return c.sendPlain(RpcError(flt.Code, flt.Text))
 		}
+		if flt.at("resPQ", "kind") && flt.Kind == "other-object" {
+			return c.sendPlain(flt.Raw)
+		}
 		nonce, sn := c.hs.Nonce, c.hs.ServerNonce
 		stale := false
 		if flt.at("resPQ", "nonce") && flt.Kind == "previous-exchange" {
@@ -773,6 +779,9 @@ func (c *Conn) plain(f []byte) error {
 		c.hs.NewNonce = newNonce
 		if flt.at("dhParams", "kind") && flt.Kind == "rpc_error" {
 			return c.sendPlain(RpcError(flt.Code, flt.Text))
+		}
+		if flt.at("dhParams", "kind") && flt.Kind == "other-object" {
+			return c.sendPlain(flt.Raw)
 		}
 		if flt.at("dhParams", "kind") { // server_DH_params_fail with correct nonces
 			w := &W{}
@@ -929,6 +938,9 @@ func (c *Conn) plain(f []byte) error {
 		}
 		if flt.at("dhGen", "kind") && flt.Kind == "rpc_error" {
 			return c.sendPlain(RpcError(flt.Code, flt.Text))
+		}
+		if flt.at("dhGen", "kind") && flt.Kind == "other-object" {
+			return c.sendPlain(flt.Raw)
 		}
 		o := &W{}
 		o.U32(ctorOut).Raw(oNonce).Raw(oSN).Raw(hash)
